@@ -236,7 +236,7 @@ class LoopInterp:
 
         for bb, t in b.calls():
             p = callee_path(t)
-            if p in ('core::ptr::copy_nonoverlapping', 'core::intrinsics::copy_nonoverlapping'):
+            if p in ('core::ptr::copy_nonoverlapping', 'core::intrinsics::copy_nonoverlapping', 'core::ptr::read'):
                 idx = self.index_of_ptr(defs, t['args'][0])
                 if idx is not None:
                     c = cell_of_index_local(idx)
@@ -621,6 +621,21 @@ class LoopInterp:
             return self.call(st, bb, t, work)
         raise CUnanalysable('terminator %s' % k)
 
+    def take(self, st, idx, where):
+        """slot `idx` becomes an owned T (O2/O4): it must be the first live input and must
+        already be outside the T region as the counters describe it"""
+        q_now = st.cells[self.roles['q']]
+        if not st.dbm.eq(idx, st.lt):
+            self.fail('O4', ['C08', 'C09'], where, 'the element brought back as an owned T is slot %s, the first live input is slot %s' % (lf_str(idx), lf_str(st.lt)), 'take-order')
+        if not st.dbm.le(lf_add(idx, 1), ('n', 0)):
+            self.fail('O2', ['C08', 'C09'], where, 'slot %s is read without proof that it is inside the vector' % lf_str(idx), 'take-bounds')
+        if st.dbm.le(lf_add(idx, 1), q_now):
+            self.discharged('O2', where, 'slot %s is already outside the T region [%s, n) when it becomes an owned value' % (lf_str(idx), lf_str(q_now)))
+        # otherwise the counter must catch up before anything can unwind: decided at the exits
+        st.lt = lf_add(idx, 1)
+        st.events.append(('take', idx, where))
+        return Taken(idx)
+
     def unwind_edge(self, st, bb, t, work, what):
         if t['unwind'] in ('unreachable', 'terminate'):
             return
@@ -666,22 +681,11 @@ class LoopInterp:
             mu = args[0]
             if not isinstance(mu, MU) or mu.idx is None:
                 raise CUnanalysable('assume_init of something that is not a bit copy of a slot at %s' % where)
-            # O2/O4: the slot must be the first live input and must already be outside
-            # the T region as the counters describe it
-            q_now = st.cells[self.roles['q']]
-            if not st.dbm.eq(mu.idx, st.lt):
-                self.fail('O4', ['C08', 'C09'], where, 'the element brought back as an owned T is slot %s, the first live input is slot %s' % (lf_str(mu.idx), lf_str(st.lt)), 'take-order')
-            if not st.dbm.lt_proved(mu.idx, ('n', 0)) if hasattr(st.dbm, 'lt_proved') else not st.dbm.le(lf_add(mu.idx, 1), ('n', 0)):
-                self.fail('O2', ['C08', 'C09'], where, 'slot %s is read without proof that it is inside the vector' % lf_str(mu.idx), 'take-bounds')
-            if not st.dbm.le(lf_add(mu.idx, 1), q_now):
-                self.fail('O2', ['C09'], where,
-                          'the input element of slot %s becomes an owned value while the consumed counter (%s) still covers it: if anything unwinds from here on, cleanup drops that element a second time' % (
-                              lf_str(mu.idx), lf_str(q_now)), 'advance-before-own')
-            else:
-                self.discharged('O2', where, 'slot %s is outside the T region [%s, n) when it becomes an owned value' % (lf_str(mu.idx), lf_str(q_now)))
-            st.lt = lf_add(mu.idx, 1)
-            st.events.append(('take', mu.idx, where))
-            ret = Taken(mu.idx)
+            ret = self.take(st, mu.idx, where)
+        elif p in ('core::ptr::read', 'core::ptr::const_ptr::<impl *const T>::read', 'core::ptr::mut_ptr::<impl *mut T>::read') and isinstance(args[0], SlotRef) and args[0].ty == 'T':
+            # ptr::read(&slice[i]): bit copy and ownership in one step
+            st.events.append(('bitcopy', args[0].idx, where))
+            ret = self.take(st, args[0].idx, where)
         elif p in ('core::ptr::mut_ptr::<impl *mut T>::cast', 'core::ptr::const_ptr::<impl *const T>::cast'):
             a = args[0]
             if isinstance(a, SlotRef):
@@ -1312,30 +1316,90 @@ def guard_rule(ctx, crate, b, label):
                 return promoted_query({'copy': pl})
         return None
 
+    def find_guards(bx):
+        """switches of body bx on size_of::<A>() == size_of::<B>() (resp. align_of): kind -> (bb, equal edge, unequal edge, {A,B})"""
+        dx = local_defs(bx)
+
+        def pq(op, depth=0):
+            st = trace_value(bx, dx, op)
+            tt = st[-1]
+            if depth > 8:
+                return None
+            if tt[0] == 'place':
+                pl = tt[1]
+                if pl['p'] == ['deref']:
+                    return pq({'copy': {'l': pl['l'], 'p': [], 'ty': None}}, depth + 1)
+                if len(pl['p']) == 1 and 'f' in pl['p'][0]:
+                    d = single_def(dx, pl['l'])
+                    if d and d[0] == 'stmt' and d[3]['rv']['k'] == 'aggregate':
+                        return pq(d[3]['rv']['fields'][pl['p'][0]['f']], depth + 1)
+                return None
+            if tt[0] == 'const' and 'promoted' in tt[1]:
+                pb = crate.body(bx.path, promoted=tt[1]['promoted'])
+                if pb is None:
+                    return None
+                for _, c in pb.calls():
+                    pth = callee_path(c)
+                    if pth in ('core::mem::size_of', 'core::mem::align_of'):
+                        return (pth.split('::')[-1], callee_ty_args(c)[0])
+                return None
+            if tt[0] == 'call':
+                pth = callee_path(tt[1])
+                if pth in ('core::mem::size_of', 'core::mem::align_of'):
+                    return (pth.split('::')[-1], callee_ty_args(tt[1])[0])
+            if tt[0] == 'ref' and not tt[2]['p']:
+                return pq({'copy': tt[2]}, depth + 1)
+            return None
+        out = {}
+        for bb, blk in enumerate(bx.blocks):
+            tt = blk['term']
+            if tt['k'] != 'switch' or blk['cleanup']:
+                continue
+            l = op_local(tt['d'])
+            d = single_def(dx, l) if l is not None else None
+            if not d or d[0] != 'stmt' or d[3]['rv']['k'] != 'bin' or d[3]['rv']['op'] not in ('Eq', 'Ne'):
+                continue
+            qa, qb = pq(d[3]['rv']['l']), pq(d[3]['rv']['r'])
+            if not qa or not qb or qa[0] != qb[0] or qa[1] == qb[1]:
+                continue
+            tg = dict(tt['targets'])
+            if 0 not in tg:
+                continue
+            false_edge, true_edge = tg[0], tt['otherwise']
+            eq_is_true = d[3]['rv']['op'] == 'Eq'
+            out[qa[0]] = (bb, true_edge if eq_is_true else false_edge, false_edge if eq_is_true else true_edge, {qa[1], qb[1]})
+        return out
+
     guards = {}
-    for bb, blk in enumerate(b.blocks):
-        t = blk['term']
-        if t['k'] != 'switch' or blk['cleanup']:
+    for kind, g in find_guards(b).items():
+        if g[3] == {'T', 'U'}:
+            guards[kind] = g[:3]
+            ctx.inst('A-GUARD', '%s::<T>() == %s::<U>() tested at bb%d [%s]' % (kind, kind, g[0], label))
+    # a guard may live in a helper of the crate called with (T, U): the call then stands for the test
+    helper_guards = {}
+    for bb, tcall in b.calls():
+        hp = callee_path(tcall)
+        hb = crate.body(hp) if hp and hp.startswith('truc_runtime::') and hp != FN else None
+        if hb is None or b.blocks[bb]['cleanup']:
             continue
-        l = op_local(t['d'])
-        d = single_def(defs, l) if l is not None else None
-        if not d or d[0] != 'stmt' or d[3]['rv']['k'] != 'bin' or d[3]['rv']['op'] not in ('Eq', 'Ne'):
-            continue
-        qa = promoted_query(d[3]['rv']['l'])
-        qb = promoted_query(d[3]['rv']['r'])
-        if not qa or not qb or qa[0] != qb[0] or {qa[1], qb[1]} != {'T', 'U'}:
-            continue
-        # which edge is "equal"
-        eq_is_true = d[3]['rv']['op'] == 'Eq'
-        tg = dict(t['targets'])
-        if 0 in tg:
-            false_edge, true_edge = tg[0], t['otherwise']
-        else:
-            continue
-        equal_edge = true_edge if eq_is_true else false_edge
-        unequal_edge = false_edge if eq_is_true else true_edge
-        guards[qa[0]] = (bb, equal_edge, unequal_edge)
-        ctx.inst('A-GUARD', '%s::<T>() == %s::<U>() tested at bb%d [%s]' % (qa[0], qa[0], bb, label))
+        targs = callee_ty_args(tcall)
+        hg = find_guards(hb)
+        for kind, g in hg.items():
+            # the helper's own generic parameters, instantiated here with T and U
+            fn = crate.fns.get(hp, {})
+            gens = fn.get('generics') or []
+            inst = {gens[i]: targs[i] for i in range(min(len(gens), len(targs)))}
+            if {inst.get(x, x) for x in g[3]} != {'T', 'U'}:
+                continue
+            # inside the helper a normal return is impossible once the equal edge is removed
+            reach = hb.reachable(0, unwind=True, removed_edges=[(g[0], g[1])])
+            if any(hb.blocks[x]['term']['k'] == 'return' for x in reach):
+                continue
+            if kind not in guards and tcall['t'] is not None:
+                helper_guards[kind] = (bb, tcall['t'], tcall['unwind'] if isinstance(tcall['unwind'], int) else None)
+                ctx.inst('A-GUARD', '%s::<T>() == %s::<U>() tested in helper %s called at bb%d [%s]' % (kind, kind, hp.split('::')[-1], bb, label))
+    for kind, (cbb, ok_edge, unwind_bb) in helper_guards.items():
+        guards[kind] = (cbb, ok_edge, unwind_bb)
     for kind in ('size_of', 'align_of'):
         if kind not in guards:
             ctx.add(['C10'], 'A-GUARD', FN, 'no test of %s::<T>() against %s::<U>() guards the conversion%s' % (kind, kind, ' (with debug assertions off)' if 'off' in label else ''), key='missing-%s-%s' % (kind, label))
@@ -1359,6 +1423,9 @@ def guard_rule(ctx, crate, b, label):
             if bb in reach:
                 ctx.add(['C10'], 'A-GUARD', where, '%s is reachable without passing the %s equality test' % (what, kind), key='bypass-%s-%s' % (kind, what))
         # the unequal edge only panics, and the input vector is dropped on the way out
+        if ne_edge is None:
+            ctx.add(['C10'], 'A-GUARD', FN, 'when the %s test fails (inside a helper) the unwinding skips this function\'s cleanup: the input vector is not dropped' % kind, key='ne-drop-%s' % kind)
+            continue
         ne_reach = b.reachable(ne_edge, unwind=True, removed_blocks=[gbb])
         returns = [x for x in ne_reach if b.blocks[x]['term']['k'] == 'return']
         if returns:
